@@ -612,16 +612,12 @@ func pbSetDescSerialize(in *MsgSetDesc) *pbx.SetDesc {
 		return nil
 	}
 
-	if in.DefaultAcs != nil || in.Public != nil || in.Trusted != nil || in.Private != nil {
-		return &pbx.SetDesc{
-			DefaultAcs: pbDefaultAcsSerialize(in.DefaultAcs),
-			Public:     interfaceToBytes(in.Public),
-			Trusted:    interfaceToBytes(in.Trusted),
-			Private:    interfaceToBytes(in.Private),
-		}
+	return &pbx.SetDesc{
+		DefaultAcs: pbDefaultAcsSerialize(in.DefaultAcs),
+		Public:     interfaceToBytes(in.Public),
+		Trusted:    interfaceToBytes(in.Trusted),
+		Private:    interfaceToBytes(in.Private),
 	}
-
-	return nil
 }
 
 func pbSetDescDeserialize(in *pbx.SetDesc) *MsgSetDesc {
@@ -629,21 +625,13 @@ func pbSetDescDeserialize(in *pbx.SetDesc) *MsgSetDesc {
 		return nil
 	}
 
-	defacs := pbDefaultAcsDeserialize(in.GetDefaultAcs())
-	public := in.GetPublic()
-	trusted := in.GetTrusted()
-	private := in.GetPrivate()
-
-	if defacs != nil || public != nil || private != nil || trusted != nil {
-		return &MsgSetDesc{
-			DefaultAcs: defacs,
-			Public:     bytesToInterface(public),
-			Trusted:    bytesToInterface(trusted),
-			Private:    bytesToInterface(private),
-		}
+	// An empty section is still a section: over JSON {set desc={}} is a 'desc' request.
+	return &MsgSetDesc{
+		DefaultAcs: pbDefaultAcsDeserialize(in.GetDefaultAcs()),
+		Public:     bytesToInterface(in.GetPublic()),
+		Trusted:    bytesToInterface(in.GetTrusted()),
+		Private:    bytesToInterface(in.GetPrivate()),
 	}
-
-	return nil
 }
 
 func pbSetQuerySerialize(in *MsgSetQuery) *pbx.SetQuery {
@@ -818,16 +806,10 @@ func pbDefaultAcsDeserialize(defacs *pbx.DefaultAcsMode) *MsgDefaultAcsMode {
 		return nil
 	}
 
-	auth := defacs.GetAuth()
-	anon := defacs.GetAnon()
-
-	if auth != "" || anon != "" {
-		return &MsgDefaultAcsMode{
-			Auth: auth,
-			Anon: anon,
-		}
+	return &MsgDefaultAcsMode{
+		Auth: defacs.GetAuth(),
+		Anon: defacs.GetAnon(),
 	}
-	return nil
 }
 
 func pbTopicDescSerialize(desc *MsgTopicDesc) *pbx.TopicDesc {
